@@ -402,6 +402,9 @@ def _verify_enable(model, extra):
 PRG = "{a(1..3)}. b(X) :- a(X), not c(X). c(X) :- a(X), X > 1. x :- b(X), b(X). #show b/1."
 
 
+PRGS = [PRG, "{ a(X) : b(X) }. c(X) :- a(X). d(X,Y) :- c(X), b(Y). e(X) :- d(X,_). #show e/1.", "{a; b; c; d}. foo :- a, b, c. bar :- a, b, d. #show foo/0."]
+
+
 @mirror("main_wiring")
 def _main_wiring(model, extra):
     import os
@@ -411,30 +414,37 @@ def _main_wiring(model, extra):
     from clingo.ast import parse_string
 
     from ngo.api import optimize
+    from ngo.utils.ast import Predicate
     from ngo.utils.globals import auto_detect_input, auto_detect_output
 
     toks = _tokens_from_model(model) or ["default"]
     if "none" in toks and len(toks) > 1:
         toks = ["none"]
+    tok_lists = [toks] if _tokens_from_model(model) else [["default"], ["all"], ["cleanup", "unused"]]
     confirmed = []
-    for opts in ([], ["--input-predicates", "a/1"], ["--output-predicates", ""], ["--input-predicates", "auto", "--output-predicates", "b/1"]):
-        r = subprocess.run([sys.executable, "-m", "ngo", "--enable"] + toks + opts, input=PRG, capture_output=True, text=True, env=dict(os.environ), timeout=60)
-        prg = []
-        parse_string(PRG, prg.append)
-        from ngo.utils.ast import Predicate
-
-        inp = auto_detect_input(prg)
-        outp = auto_detect_output(prg)
-        if "--input-predicates" in opts and opts[opts.index("--input-predicates") + 1] != "auto":
-            inp = [Predicate("a", 1)]
-        if "--output-predicates" in opts:
-            v = opts[opts.index("--output-predicates") + 1]
-            outp = [] if v == "" else [Predicate("b", 1)]
-        en = _expected_enable(toks)
-        want = "".join(str(s) + "\n" for s in optimize(prg, inp, outp, **{k: (k in en) for k in TRAITS}))
-        if r.stdout != want or r.returncode != 0:
-            confirmed.append({"argv": ["--enable"] + toks + opts, "stdout": r.stdout[-800:], "want": want[-800:], "rc": r.returncode, "stderr": r.stderr[-300:]})
-    return {"confirmed": bool(confirmed), "mismatches": confirmed[:2]}
+    optsets = ([], ["--input-predicates", "a/1"], ["--output-predicates", ""], ["--output-predicates"], ["--input-predicates", "auto", "--output-predicates", "e/1"], ["--input-predicates", ""])
+    for text in PRGS:
+        for tl in tok_lists:
+            for opts in optsets:
+                r = subprocess.run([sys.executable, "-m", "ngo", "--enable"] + tl + opts, input=text, capture_output=True, text=True, env=dict(os.environ), timeout=60)
+                prg = []
+                parse_string(text, prg.append)
+                inp = auto_detect_input(prg)
+                outp = auto_detect_output(prg)
+                if "--input-predicates" in opts:
+                    v = opts[opts.index("--input-predicates") + 1]
+                    inp = {"auto": inp, "": [], "a/1": [Predicate("a", 1)]}[v]
+                if "--output-predicates" in opts:
+                    k = opts.index("--output-predicates")
+                    v = opts[k + 1] if k + 1 < len(opts) else ""
+                    outp = [] if v == "" else [Predicate("e", 1)]
+                en = _expected_enable(tl)
+                want = "".join(str(s) + "\n" for s in optimize(prg, inp, outp, **{k: (k in en) for k in TRAITS}))
+                if r.stdout != want or r.returncode != 0:
+                    confirmed.append({"argv": ["--enable"] + tl + opts, "program": text, "stdout": r.stdout[-600:], "want": want[-600:], "rc": r.returncode, "stderr": r.stderr[-300:]})
+                if confirmed:
+                    return {"confirmed": True, "mismatches": confirmed[:2]}
+    return {"confirmed": False, "bounded": True, "bound": f"{len(PRGS)} programs x {len(tok_lists)} enable lists x {len(optsets)} predicate option sets"}
 
 
 @mirror("parser_constants")
@@ -975,3 +985,135 @@ def _equality(model, extra):
                 problems.append(f"{lit} does not mean {var} = {rest} (assignment {dict((k, str(v)) for k, v in asg.items())})")
                 break
     return {"confirmed": bool(problems), "literal": str(lit), "result": [str(var), str(rest)], "problems": problems[:3]}
+
+
+# ---------------------------------------------------------------------------------------------
+# C18: independent generic traversal (every SymbolicAtom with a Function symbol, any child field) as referee
+def _occ(node, acc, head_pos=None):
+    """collect (name, arity, sign_context) of every symbolic atom reachable from node through any child"""
+    if isinstance(node, A.AST):
+        if node.ast_type == A.ASTType.SymbolicAtom and node.symbol.ast_type == A.ASTType.Function:
+            acc.add((node.symbol.name, len(node.symbol.arguments)))
+        for k in node.child_keys:
+            v = getattr(node, k)
+            if isinstance(v, A.AST):
+                _occ(v, acc)
+            elif v is not None and not isinstance(v, (str, int)):
+                try:
+                    for x in v:
+                        _occ(x, acc)
+                except TypeError:
+                    pass
+
+
+def _pos_heads(stm):
+    out = set()
+    if stm.ast_type != A.ASTType.Rule:
+        return out
+    h = stm.head
+
+    def lit(l):
+        if l.ast_type == A.ASTType.Literal and l.sign == A.Sign.NoSign and l.atom.ast_type == A.ASTType.SymbolicAtom and l.atom.symbol.ast_type == A.ASTType.Function:
+            out.add((l.atom.symbol.name, len(l.atom.symbol.arguments)))
+
+    if h.ast_type == A.ASTType.Literal:
+        lit(h)
+    elif h.ast_type in (A.ASTType.Aggregate, A.ASTType.Disjunction):
+        for e in h.elements:
+            lit(e.literal)
+    elif h.ast_type == A.ASTType.HeadAggregate:
+        for e in h.elements:
+            lit(e.condition.literal)
+    return out
+
+
+DETECT_PROGRAMS = [
+    "a(X) :- b(X), not c(X). {d(X) : e(X)} :- f. g(X) ; h(X) :- i(X). #sum{1,X : j(X) : k(X)} <= 2 :- l. :- m(X), X = #sum{Y : n(X,Y)}. #minimize{X : o(X)}. :~ p(X). [X] #show q/1. #show t(X) : r(X), not s(X). #show u/2.",
+    "a :- a. b :- c, b. d(X) :- e(X), 1 {f(X,Y) : g(Y)}. h :- not not i, j : k. -l(X) :- m(X). n :- -l(1). #show n/0.",
+    "a(X) :- b(X), X = #max{Y : c(Y) ; Z : d(Z), not e(Z)}. {f(X)} :- a(X). :- f(X), g(X). #show f/1. #show h : f(_).",
+]
+
+
+@mirror("auto_detect_bounded")
+def _auto_detect_bounded(model, extra):
+    from clingo.ast import parse_string
+
+    from ngo.utils.globals import auto_detect_input, auto_detect_output
+
+    problems = []
+    for text in DETECT_PROGRAMS:
+        prg = []
+        parse_string(text, prg.append)
+        occ_all, heads = set(), set()
+        derived_not_used = set()
+        for stm in prg:
+            if stm.ast_type in (A.ASTType.Rule, A.ASTType.Minimize):
+                o = set()
+                _occ(stm, o)
+                occ_all |= o
+                ph = _pos_heads(stm)
+                heads |= ph
+                body = set()
+                for b in stm.body:
+                    _occ(b, body)
+                derived_not_used |= {p for p in ph if p not in body}
+        got = {(p.name, p.arity) for p in auto_detect_input(prg)}
+        if not (occ_all - heads) <= got:
+            problems.append({"program": text, "missing_input_predicates": sorted(occ_all - heads - got)})
+        if got & derived_not_used:
+            problems.append({"program": text, "derived_predicates_reported": sorted(got & derived_not_used)})
+        shown = set()
+        for stm in prg:
+            if stm.ast_type == A.ASTType.ShowSignature and stm.name != "":
+                shown.add((stm.name, stm.arity))
+            elif stm.ast_type == A.ASTType.ShowTerm:
+                for b in stm.body:
+                    _occ(b, shown)
+        out = auto_detect_output(prg)
+        gout = {(p.name, p.arity) for p in out}
+        if gout != shown:
+            problems.append({"program": text, "auto_detect_output": sorted(gout), "shown": sorted(shown)})
+        if list(out) != sorted(set(out)):
+            problems.append({"program": text, "why": "output list not sorted / not duplicate free"})
+    return {"confirmed": bool(problems), "bounded": True, "bound": f"{len(DETECT_PROGRAMS)} programs (no pools, no theory atoms)", "problems": problems[:2]}
+
+
+@mirror("auto_detect_input")
+def _auto_detect_input(model, extra):
+    return _auto_detect_bounded(model, extra)
+
+
+@mirror("auto_detect_output")
+def _auto_detect_output(model, extra):
+    return _auto_detect_bounded(model, extra)
+
+
+EXTRA_NO_EXCEPTION = [
+    "{p(1..2)}. a :- #min{X : p(X)}. b :- #sum{1,X : p(X)}. :- #count{X : p(X)}. #show a/0.",
+    "q(1..2). {p(G,1..3)} 1 :- q(G). a(S) :- S = #sum{ X,x : p(_,X) }. #show a/1.",
+    "{b(1..2)}. #sum{1,X : a(X) : b(X)} <= 1. #count{X : c(X) : b(X)} >= 1. #show a/1.",
+    "#external e(1). {p}. a :- e(_), p. #show a/0. #const n = 3. #program base. &diff{a - b} <= n :- p.",
+    "a(1;2). b(X) :- a(X), X = 1..3. c :- a(X), #sup > X > #inf. d(\"s\") :- c. #show d/1.",
+    "{a(1..3)}. :- 2 #sum{X : a(X)} 4, not #count{X : a(X)} = 2. b :- 1 <= #max{X : a(X)} <= 2, 0 < #min{X : a(X)}.",
+]
+
+
+@mirror("corpus_no_exception")
+def _corpus_no_exception(model, extra):
+    """bounded stand-in for C03: optimize returns on every corpus program under each single trait, `default` and `all`"""
+    from native.corpus import CORPUS
+    from native.mirrors import TRAITS as _T
+    from native.witnesses import optimise
+
+    programs = [p for progs in CORPUS.values() for p, _f in progs] + EXTRA_NO_EXCEPTION
+    n = 0
+    for prg in programs:
+        for traits in [[t] for t in _T] + [[t for t in _T if t != "duplication"], list(_T), []]:
+            n += 1
+            try:
+                optimise(prg, traits)
+            except Exception as e:  # pylint: disable=broad-except
+                import traceback
+
+                return {"confirmed": True, "bounded": True, "program": prg, "traits": traits, "exception": repr(e), "where": traceback.format_exc().strip().splitlines()[-3:]}
+    return {"confirmed": False, "bounded": True, "bound": f"{n} (program, trait selection) pairs"}
